@@ -146,7 +146,15 @@ def gen_history(r, maxops, thorough):
             n = sum(1 for o in sim.bods[b]["fds"] if not sim.taken[o])
             if n > 20 and sim.nopen + n > 800:
                 continue                    # stay well below common RLIMIT_NOFILE values
-            push("S%d" % b)
+            # a meaningful share of the sends that carry descriptors are resumed partial sends: the first
+            # write ends inside the header (hdr) or exactly at the header/body boundary (bnd)
+            k2 = r.random()
+            flag = ""
+            if n >= 1 and n <= 253:
+                flag = ":hdr" if k2 < 0.35 else ":bnd" if k2 < 0.50 else ""
+            elif n == 0 and k2 < 0.10:
+                flag = ":hdr"
+            push("S%d%s" % (b, flag))
             if n <= 253:
                 sim.wire.append({"n": n, "slots": sim.bods[b]["slots"]})
                 sim.nopen += n              # the peer's in-flight copies
@@ -604,6 +612,17 @@ class Runner:
                 ctx.count("push_width:%s" % ("1" if n == 1 else "2-5" if n <= 6 else "6-20" if n <= 20 else "21-253" if n <= 253 else "254+"))
                 if tag == "err" and s["closes"]:
                     ctx.count("failed_push_closed_duplicates")
+            if op[0] == "S" and tag == "sent" and "first" in s:
+                nfd = int(res.split(":")[2])
+                first, hl, wr = s["first"], s["hdrlen"], s.get("writes", 1)
+                sched = ("single_write" if wr <= 1 else "first_write_ends_inside_header" if first < hl
+                         else "first_write_ends_at_header_body_boundary" if first == hl else "first_write_ends_inside_body")
+                ctx.count("send_schedule:%s:%s" % (sched, "with_descriptors" if nfd > 0 else "no_descriptors"))
+                if wr > 1:
+                    ctx.count("resumed_send_writes:%s" % ("2" if wr == 2 else "3-9" if wr < 10 else "10+"))
+                want = op.split(":")[1] if ":" in op else ""
+                if (want == "hdr" and not (wr > 1 and first < hl)) or (want == "bnd" and not (wr > 1 and first == hl)):
+                    ctx.count("send_schedule_request_not_met:%s" % want)
             if op[0] == "V" and tag == "b":
                 nf = len(s["bods"][int(res[2:])]["fds"])
                 ctx.count("recv_descriptors:%s" % ("0" if nf == 0 else "1-3" if nf <= 3 else "4-10" if nf <= 10 else "11+"))
@@ -788,7 +807,9 @@ def setup(ctx):
                 "caller descriptors (fresh pipes / unlinked files), UnixFd variables, <= 3 built bodies plus received ones, one connection: "
                 "open, caller-close, UnixFd::new, push (single / tuple / Vec / HashMap / Vec of tuples / push_params / push_param2..5 / push_variant / Vec of variants / "
                 "with a 300 kB byte array / old Param API; elements UnixFd, &dyn AsRawFd, or one that fails, at any position; 25% of pushes "
-                "fail), reset, drop, send (library -> raw peer socket), inject (raw peer crafts a message with chosen indices), receive "
+                "fail), reset, drop, send (library -> raw peer socket with write_once(Nonblock) + resume; of the sends that carry descriptors 35% with "
+                "the send buffer shrunk and a 40 kB header so that the first write ends inside the header, 15% sized so that it ends exactly at "
+                "the header/body boundary; the peer keeps every descriptor of every recvmsg), inject (raw peer crafts a message with chosen indices), receive "
                 "(raw peer -> library), read_unixfd with in-range / out-of-range indices, parse a stored slot, clone, dup, take, drop; 7% of "
                 "histories contain one push of 11..253 descriptors. After EVERY operation /proc/self/fd + fstat are compared with the model's "
                 "table up to renaming. distinct = distinct history text (after HashMap order feedback); non-trivial = at least one push succeeded")
@@ -806,7 +827,7 @@ def setup(ctx):
         "dup(2)/recvmsg do not fail for lack of descriptors (RLIMIT_NOFILE is raised; EMFILE paths are not exercised)",
         "positions of descriptors in a message fit the u32 index (the theorem C11_index_is_position states the bound 2^32)",
         "operations naming a dropped/moved variable are skipped (Rust's ownership rules make them unwritable)",
-        "a message is sent with a single write_all; short-write patterns are C10 (one 300 kB message per history exercises several sendmsg calls)",
+        "short-write patterns in general are C10; here: first write inside the header / at the header-body boundary / inside the body (300 kB message), then resumed writes",
     ]
 
 
